@@ -65,6 +65,10 @@ pub const ZOO: &[&str] = &[
   "x := \"ab\" + \"cd\"", "x := (1, $s, \"t\")", "x := {a: $s, b: $t}", "y := {a: $s, b: $t}\nx := y.b", "y := ($s, $t)\nx := y.2", "x := {\"k\": $s}",
   "f(k<f64>) => <f64>\n  ├ 0 => 1\n  └ m => m * 2.\nx := f($s)", "f(k<f64>) => <f64>\n  ├ 0 => 1\n  └ m => m * 2.\nx := f($r)", "y := $s\nx<f64> := y?\n  | 1 => 10\n  | w, w > 2 => 20\n  | * => 0.",
   "#M(n<u64>) => <u64>\n  ├ :A(n<u64>)\n  └ :Done(out<u64>).\n\n#M(n<u64>) -> :A(n)\n  :A(n)\n    ├ n > 2u64 -> :A(n - 1u64)\n    └ * -> :Done(n)\n  :Done(out) => out.\n\nx := #M(6u64)",
+  // ranges: every form, literal and variable operands in each position, typed kinds, as subscripts, inside a match arm and a comprehension
+  "x := 1..2..=9", "y := 2\nx := y..3..12", "y := 2\nx := y..3..=12", "y := 3\nx := 1..y..10", "y := 3\nx := 1..y..=10", "y := 12\nx := 1..2..y", "y := 12\nx := 1..2..=y",
+  "y := 2\nx := y..7", "y := 7\nx := 2..=y", "x := 1<u8>..2<u8>..9<u8>", "x := 1<u8>..2<u8>..=9<u8>", "x := 1<i16>..=5<i16>", "x := 0.5..0.25..2.0", "x := 0.5..0.25..=2.0",
+  "y := $r\nx := y[1..2..=3]", "y := $r\nx := y[1..2..4]", "y := 2\nx := y? | n => 0..n..10 | * => 0..1..10.", "y := 2\nx := y? | n => 0..n..=10 | * => 0..1..=10.", "x := [ stats/sum/row(0..s..10) | s <- [2 5] ]",
 ];
 
 fn zoo_program(i: u16, a: u32) -> Program {
